@@ -265,7 +265,8 @@ def main(argv):
         'violations': len(new_viol),
     }
     os.makedirs(os.path.join(OUT, 'evidence'), exist_ok=True)
-    json.dump(ev, open(os.path.join(OUT, 'evidence', prop + '.json'), 'w'), indent=1)
+    # a run restricted to some units (debugging aid) must not replace the record of a full run
+    json.dump(ev, open(os.path.join(OUT, 'evidence', prop + ('.filtered.json' if only else '.json')), 'w'), indent=1)
 
     print('%s %s: %d paths, %d forks, %d solver checks (%.1fs), %d witnesses replayed, '
           '%d/%d obligations discharged, classes=%s, exhaustive=%s, wall=%.1fs'
